@@ -162,6 +162,7 @@ struct Obj {
 
   // Function
   bool is_inline;
+  bool is_inline_def; // inline definition only: no external definition (C11 6.7.4p7)
   Obj *params;
   Node *body;
   Obj *locals;
